@@ -14,4 +14,6 @@ INVARIANT InvLaterSettingWins
 INVARIANT InvReaddIdempotent
 INVARIANT InvDirectIsPlainAppend
 INVARIANT InvNativeShape
+INVARIANT InvNativeSetHasNativeOf
+INVARIANT InvSystemDirsRemovedExactly
 CHECK_DEADLOCK FALSE
